@@ -160,10 +160,43 @@ func genC03(t *rapid.T) *c03Case {
 				if n.Kind == h.KDir {
 					d.Nodes = append(d.Nodes, h.Node{Path: n.Path, Kind: h.KDir, Perm: 0o755})
 				}
+			case 2:
+				// an old plain file: replacing it goes through a temporary name
+				if n.Kind == h.KFile {
+					d.Nodes = append(d.Nodes, h.Node{Path: n.Path, Kind: h.KFile, Perm: 0o600, Size: 4, Seed: 4242, Mtime: 12345})
+				}
 			}
 		}
 		d.Normalize()
 		c.Dst = d
+	}
+	// a sender that guesses the receiver's temporary names: legal symlink entries
+	// named like them (small counters, the writer's ".tmp.<9 digits>" shape) that point
+	// outside, announced before the entries that replace old files
+	if rapid.IntRange(0, 5).Draw(t, "guesstmp") == 0 {
+		dirs := []string{""}
+		for _, st := range c.Stats {
+			if os.FileMode(st.Mode).IsDir() && len(dirs) < 3 {
+				dirs = append(dirs, string(st.Path)+"/")
+			}
+		}
+		target := rapid.SampledFrom([]string{"/outside/secret", "../../outside/secret", "/parent/sibling"}).Draw(t, "guesstarget")
+		for _, d := range dirs {
+			for k := 1; k <= 6; k++ {
+				for _, name := range []string{fmt.Sprintf("%s.tmp.%09d", d, k), fmt.Sprintf("%s.tmp.%d", d, k)} {
+					st := hStat{Path: h.BStr(name), Mode: uint32(os.ModeSymlink | 0o777), Link: h.BStr(target)}
+					j := 0
+					for j < len(c.Stats) && h.CmpComponents(string(c.Stats[j].Path), name) < 0 {
+						j++
+					}
+					if j < len(c.Stats) && string(c.Stats[j].Path) == name {
+						continue
+					}
+					c.Stats = append(c.Stats[:j], append([]hStat{st}, c.Stats[j:]...)...)
+				}
+			}
+		}
+		c.Mutations = append(c.Mutations, "guessed-temp-names")
 	}
 	c.Mode = rapid.SampledFrom([]string{"normal", "normal", "merge", "metaonly", "merge+metaonly"}).Draw(t, "mode")
 	c.Capacity = rapid.SampledFrom([]int{0, 8, 64}).Draw(t, "cap")
